@@ -176,6 +176,29 @@ let register (reg : string -> (Sx.t list -> Sx.t) -> unit) : unit =
         let h = Headers.response_headers (rd_csession sess) (rd_hcfgs cfgs) (rd_hmap hmap) in
         wr_list (fun n -> L [wr_str n; wr_list wr_str (Headers.hget n h)]) (rd_list rd_str names)
       | _ -> raise (Bad "response_headers arity"));
+  (* ---- Redirect ---- *)
+  reg "valid_redirects" (function
+      | [wls; str; parse] ->
+        let r = rd_str str in
+        let pr = rd_opt (rd_pair rd_str rd_str) parse in
+        let up x = if x = r then pr else None in
+        wr_list (fun wl -> wr_bool (Redirect.is_valid_redirect up (rd_list rd_str wl) r)) (match wls with L l -> l | _ -> [])
+      | _ -> raise (Bad "valid_redirects arity"));
+  reg "get_redirect" (function
+      | [pp; wl; pt; rq] ->
+        let ptab = Hashtbl.create 4 in
+        List.iter (function
+            | L [u; r] -> Hashtbl.replace ptab (string_of_str (rd_str u)) (rd_opt (rd_pair rd_str rd_str) r)
+            | v -> raise (Bad ("bad parse entry " ^ to_string v))) (match pt with L l -> l | _ -> []);
+        let up u = (match Hashtbl.find_opt ptab (string_of_str u) with
+            | Some r -> r | None -> raise (Bad ("url oracle asked about unlisted " ^ String.escaped (string_of_str u)))) in
+        let q = (match rq with
+            | L [rd; xa; prox; host; scheme; uri; xfh; xfp; xfu] ->
+              { Redirect.q_rd = rd_str rd; q_xauth = rd_str xa; q_proxied = rd_bool prox; q_host = rd_str host;
+                q_scheme = rd_str scheme; q_uri = rd_str uri; q_xf_host = rd_str xfh; q_xf_proto = rd_str xfp; q_xf_uri = rd_str xfu }
+            | v -> raise (Bad ("bad rreq " ^ to_string v))) in
+        wr_str (Redirect.get_redirect up (rd_str pp) (rd_list rd_str wl) q)
+      | _ -> raise (Bad "get_redirect arity"));
   reg "split_host_port" (function
       | [x] -> wr_opt (wr_pair wr_str wr_str) (NetAddr.split_host_port (rd_str x))
       | _ -> raise (Bad "split_host_port arity"));
